@@ -29,12 +29,13 @@ RULE = ("Hypothesis builds an EAM or Finnis-Sinclair model (as C03/C04) with gri
         "and every value (all rows <= 40, else 40 spread rows) are compared with the reference. Non-trivial = >= 2 "
         "elements with an undeclared or reversed pair, or n % 4 != 0; distinct = canonical JSON.")
 ASSUMPTIONS = [
+    "rows are taken at the float the property's own row formula gives (k*delpot; i*step; i*cutoff/(nr-1)); a row that sits EXACTLY on a range boundary is compared (the marker decides its side), a row within 64 ulp of a boundary without being on it is not (nothing can be said about which side a last-bit difference puts it on)",
     "block order inside the file is not constrained; %f prints six decimals (absolute tolerance 1e-6 + modelled rounding)",
     "the 'dens A B' block of an EEAM file is the density at an A site due to a B neighbour (as the repository's "
     "skipped DL_POLY tests expect); C04 checks that routing against the consumer's rule in detail",
 ]
 REQUIRED = {"kind:eam": 40, "kind:fs": 40, "n%4!=0": 40, "zero_filled_pair": 20, "reversed_pair": 20,
-            "route:function": 15, "route:class": 15, "route:potable": 15, "rewrite:2_writes": 2}
+            "route:function": 15, "route:class": 15, "route:potable": 15, "rewrite:2_writes": 2, "break_on_row": 5}
 FMT = ("f", 6)
 
 
@@ -44,6 +45,15 @@ def _case(draw, kind, n_min=1, n_max=4):
     m = draw(gen.eam_model(kind, n_min, n_max, depth=1, pycallables=(route not in ("potable", "main"))))
     m["route"] = route
     return m
+
+
+@st.composite
+def _node_case(draw):
+    m = draw(_case(draw(st.sampled_from(["eam", "fs"])), 1, 3))
+    if m["grid"]["nr"] < 3 or m["grid"]["nrho"] < 3:
+        m["grid"]["nr"] += 3
+        m["grid"]["nrho"] += 3
+    return eamtab.with_node_breaks(draw, m)
 
 
 @st.composite
@@ -60,7 +70,7 @@ def strategy(tier):
 
 def strata(tier):
     return [("eam:1-2", _case("eam", 1, 2), 2), ("eam:3-4", _case("eam", 3, 4), 3),
-            ("fs:1-2", _case("fs", 1, 2), 2), ("fs:3-4", _case("fs", 3, 4), 3), ("rewrite", _rewrite(), 2)]
+            ("fs:1-2", _case("fs", 1, 2), 2), ("fs:3-4", _case("fs", 3, 4), 3), ("rewrite", _rewrite(), 2), ("break_on_row", _node_case(), 1)]
 
 
 def budget(tier):
@@ -190,7 +200,7 @@ def check_case(m):
     fs = "density_fs" in m
     route = m["route"]
     nr, dr, nrho, drho = eamtab.grids(m)
-    cls = ["kind:" + ("fs" if fs else "eam"), "route:" + route]
+    cls = ["kind:" + ("fs" if fs else "eam"), "route:" + route] + (["break_on_row"] if m.get("node_breaks") else [])
     if nr % 4 or nrho % 4:
         cls.append("n%4!=0")
     els = eamtab.element_set(m)
